@@ -22,7 +22,7 @@ import numpy as np
 from .. import common as C
 
 PROP = "C17"
-GEN_REGIONS: List[str] = ["Noise"]
+GEN_REGIONS: List[str] = ["Noise", "NoiseGens"]
 THEOREMS = {
     "SpecKitV.Lemmas.Chunking": [
         "Model.sectionRun_append", "Model.sectionRun_length", "Model.sectionRun_nil",
@@ -31,6 +31,17 @@ THEOREMS = {
         "sectionRun_direct_form", "sectionRun_first"],
     # the machine-translated cascade (Gen/Noise.lean, regenerated from speckit/noise.py) IS the hand model
     "SpecKitV.Props.NoiseGen": ["gen_section_loop", "gen_cascade_eq_model", "gen_cascade_chunking"],
+    # the machine-translated generator CLASSES (Gen/NoiseGens.lean: white_noise, red_noise, alpha_noise, pink_noise as state machines,
+    # regenerated from speckit/noise.py by vk/regions/noise_gens.py) ARE the hand models, and the chunk-invariance theorems are
+    # theorems about the translated get_series / get_sample / __init__ / _settle_filter_state
+    "SpecKitV.Props.NoiseGensGen": [
+        "gen_white_init_eq_model", "gen_white_get_series_eq_model", "gen_white_chunking", "gen_buffer_size_pos",
+        "gen_white_get_sample_eq_model", "gen_white_sample_runs",
+        "gen_red_get_series_eq_model", "gen_red_chunking", "gen_red_get_sample_eq_model", "gen_red_settle_eq_model",
+        "gen_red_init_eq_model", "gen_red_requests_eq_model", "gen_red_stream_chunking",
+        "gen_alpha_get_series_eq_model", "gen_alpha_chunking", "gen_alpha_get_sample_eq_model", "gen_alpha_settle_eq_model",
+        "gen_alpha_obj_init_eq_model", "gen_alpha_requests_eq_model", "gen_pink_init_eq", "gen_alpha_stream_chunking",
+        "gen_same_seed_same_stream"],
 }
 CONTRACTS = [
     "numpy Generator.normal(0, rms, n) returns rms * (the next n standard-normal draws), draw for draw, independent of how the "
@@ -38,14 +49,26 @@ CONTRACTS = [
     "scipy.signal.lfilter([c], [1, -e], w, zi) is the DF2T first-order section y = c*x + z; z = e*y and returns the final state "
     "(checked against the model by the `gen red` correspondence); red_noise never hands it an empty block",
     "Numba compiles _numba_lfilter_cascade to the operations written in its source, in source order, without fast-math re-association",
+    # contracts of the translated generator classes (lean/SpecKitV/Np/NoiseGens.lean; each exercised by the `genobj` differential run)
+    "NpNG.default_rng / NpNG.Rng: np.random.default_rng(seed) is a cursor at position 0 of the standard-normal stream xi its seed determines",
+    "NpNG.normal: Generator.normal(loc, scale, size=n) = [loc + scale*xi(cur+i) for i<n], cursor += n; NpNG.normal1: size=None is ONE draw",
+    "NpNG.lfilter: scipy.signal.lfilter(b, a, x, zi=zi) for a first-order section = Model.sectionRun (DF2T) on b/a[0], a/a[0], b zero-padded, "
+    "returning (y, final state); its final state for an EMPTY x is unspecified (NpNG.lfilterEmptyState is sealed: nothing is provable about it)",
+    "NpNG.lfilter_zi: scipy.signal.lfilter_zi(b, a) for max(len a, len b) = 2 is [(b1 - a1*b0) / (1 + a1)] after normalising by a[0]",
+    "NpNG.arrayOfList / NpNG.emptyArr / NpNG.zeros2 / NpNG.vstack2T / NpNG.pySlice: np.array([..]), np.array([]) = np.empty(0), np.zeros((n, m)), "
+    "np.vstack([u, v]).T, a[lo:hi] with Python's negative/clamped bounds; array*scalar, -array, np.ones_like act elementwise",
+    "alpha_noise._calc_filter_coeffs(fmin_vector, fmax_vector) is elementwise: entry i of its results is Gen._calc_filter_coeffs(fmin[i], fmax[i], fs)",
+    "the filter-design arithmetic of alpha_noise.__init__ (noise.py:369-379: _num_spectra and the corner-frequency vectors) is NOT part of "
+    "the translated region: its three results are parameters of the generated __init__ (read off the real constructor's frame by the harness)",
 ]
 ASSUMPTIONS = [
-    "the generators are modelled as state machines over an abstract stream xi of standard-normal draws (Model/Noise.lean); that the real "
-    "classes are this machine is tied by correspondence (driver `cascade`, `gen white|red|alpha`), not by theorem",
+    "the generators are modelled as state machines over an abstract stream xi of standard-normal draws (Model/Noise.lean); that the "
+    "classes AS TRANSLATED (Gen/NoiseGens.lean, regenerated from the source each run) are this machine is a theorem (Props/NoiseGensGen); "
+    "that the translation is faithful is tied by the `genobj` correspondence (generated classes executed in Float vs the real objects)",
     "chunk-invariance theorems are structural (any RealLike carrier, so they hold for IEEE doubles operation by operation); "
     "the direct-form identity is proved over the reals, rounding is covered by the stated running forward bound",
-    "get_sample is proved for the white generator model (white_sample_runs); for the coloured generators it is the same buffer code "
-    "over a chunk-invariant get_series and is checked on the real code only",
+    "get_sample: the translated method of every class is proved equal to Model.getSample; the closed form `k calls = first k stream "
+    "samples` is proved for the white generator (gen_white_sample_runs) and checked on the real code for the coloured ones",
     "interleaving get_sample with get_series is not specified by the property (get_sample prefetches 4096 samples) and is not asserted",
 ]
 RULE = ("cases = (generator class in {white, red, alpha (alpha in [0.01,2] incl. end points), pink}, parameters, seed, init_filter, "
@@ -581,6 +604,285 @@ def replay(ctx, data) -> C.Part:
     return P
 
 
+# ------------------------------------------------------------------------------------------------ generated classes vs real objects
+GENOBJ_SIZES = [0, 1, 2, 3, 7, 64, 4095, 4096, 4097]
+GENOBJ_COST_PER_S = 1.0e8     # measured: ~1e8 closure evaluations per second in the compiled driver
+
+
+def genobj_build(spec: Dict[str, Any]):
+    """build the real object; for alpha/pink also read the filter-design results (the opaque inputs of the generated __init__)
+    off the frame of alpha_noise.__init__ when it returns"""
+    import sys
+    from speckit import noise
+    cap: Dict[str, Any] = {}
+    code = noise.alpha_noise.__init__.__code__
+
+    def prof(frame, event, arg):
+        if event == "return" and frame.f_code is code:
+            for k in ("filter_f_min_vals", "filter_f_max_vals"):
+                if k in frame.f_locals:
+                    cap[k] = np.array(frame.f_locals[k], dtype=np.float64)
+    if spec["kind"] in ("alpha", "pink"):
+        old = sys.getprofile()
+        sys.setprofile(prof)
+        try:
+            g = build(spec)
+        finally:
+            sys.setprofile(old)
+    else:
+        g = build(spec)
+    return g, cap
+
+
+def genobj_spec(rng: np.random.Generator, kind: str, init: bool, heavy: bool) -> Dict[str, Any]:
+    """parameters for the generated-vs-real run: settling at most ~1500 samples; `heavy` cases (4096-blocks, get_sample) of the
+    cascade classes use at most 3 sections (the generated cascade costs sections * n^2 per request in the driver)"""
+    seed = int(rng.choice([0, 1, 3, int(rng.integers(0, 2 ** 31))]))
+    fs = float(rng.choice([1.0, 10.0, 100.0, 1000.0, float(np.round(10 ** rng.uniform(0, 4), 3))]))
+    if kind == "white":
+        return {"kind": kind, "seed": seed, "kw": {"f_sample": fs, "psd": float(np.exp(rng.uniform(-4, 4)))}}
+    if kind == "red":
+        ratio = 10 ** rng.uniform(-2.8, -0.4) if init else 10 ** rng.uniform(-6, -0.4)
+        return {"kind": kind, "seed": seed, "kw": {"f_sample": fs, "f_min": float(fs * ratio), "init_filter": bool(init)}}
+    dec = rng.uniform(0.05, 0.62) if heavy else rng.uniform(0.05, 2.4)
+    fmax = float(fs * rng.uniform(0.05, 0.5))
+    if init:                      # settle ~ 2 fs / fmin_eff <= ~1500 (and only a few hundred for many sections)
+        fmax = float(fs * rng.uniform(0.2, 0.5))
+        dec = min(dec, float(np.log10(fmax / fs * (700.0 if heavy else 150.0))))
+        dec = max(dec, 0.05)
+    fmin = float(fmax * 10 ** (-dec))
+    kw = {"f_sample": fs, "f_min": fmin, "f_max": fmax, "init_filter": bool(init)}
+    if kind == "alpha":
+        kw["alpha"] = float(rng.choice([0.01, 2.0, 1.0, 0.5, float(rng.uniform(0.01, 2.0))]))
+    return {"kind": kind, "seed": seed, "kw": kw}
+
+
+def genobj_ops(rng: np.random.Generator, heavy: bool) -> List[Tuple[str, int]]:
+    """request sequence: get_series sizes incl. 0, 1, 2 and (heavy) 4095..4097, interleaved with runs of get_sample()"""
+    k = int(rng.integers(2, 8))
+    ops: List[Tuple[str, int]] = []
+    big = 0
+    for _ in range(k):
+        if rng.random() < 0.65:
+            if heavy and big < 2 and rng.random() < 0.45:
+                n = int(rng.choice([4095, 4096, 4097]))
+                big += 1
+            else:
+                n = int(rng.choice([0, 0, 1, 1, 2, 3, 7, 64, int(rng.integers(0, 300))]))
+            ops.append(("s", n))
+        elif heavy:
+            if big < 2 and rng.random() < 0.3:
+                ops.append(("g", int(rng.choice([4096, 4097, 4099]))))
+                big += 1
+            else:
+                ops.append(("g", int(rng.choice([1, 2, 3, int(rng.integers(1, 40))]))))
+        else:
+            ops.append(("s", int(rng.choice([0, 1, 2, int(rng.integers(0, 120))]))))
+    if heavy and not any(o == "g" for o, _ in ops):
+        ops.insert(int(rng.integers(0, len(ops) + 1)), ("g", int(rng.integers(1, 6))))
+    ops.append(("s", int(rng.choice([1, 2, 7]))))
+    return ops
+
+
+def genobj_real(g, ops: List[Tuple[str, int]]) -> np.ndarray:
+    out = []
+    for o, n in ops:
+        if o == "s":
+            out.append(np.asarray(g.get_series(n), dtype=np.float64).ravel())
+        else:
+            out.append(np.array([float(g.get_sample()) for _ in range(n)], dtype=np.float64))
+    return cat(out)
+
+
+def genobj_line(spec: Dict[str, Any], g, cap: Dict[str, Any], xi: np.ndarray, ops: List[Tuple[str, int]]) -> str:
+    kw, kind = spec["kw"], spec["kind"]
+    tail = f"{C.arr(xi)} {len(ops)} " + " ".join(f"{o} {int(n)}" for o, n in ops)
+    if kind == "white":
+        return f"genobj white {C.f2h(kw['f_sample'])} {C.f2h(kw['psd'])} {tail}"
+    if kind == "red":
+        return f"genobj red {C.f2h(kw['f_sample'])} {C.f2h(kw['f_min'])} {int(kw['init_filter'])} {tail}"
+    design = f"{int(g._num_spectra)} {C.arr(cap['filter_f_min_vals'])} {C.arr(cap['filter_f_max_vals'])}"
+    if kind == "alpha":
+        return (f"genobj alpha {C.f2h(kw['f_sample'])} {C.f2h(kw['f_min'])} {C.f2h(kw['f_max'])} {C.f2h(kw['alpha'])} "
+                f"{int(kw['init_filter'])} {design} {tail}")
+    return f"genobj pink {C.f2h(kw['f_sample'])} {C.f2h(kw['f_min'])} {C.f2h(kw['f_max'])} {int(kw['init_filter'])} {design} {tail}"
+
+
+def genobj_state(txt: str, kind: str) -> Dict[str, Any]:
+    """parse a state dump of the driver (see Drv/ExtNoiseGens.lean)"""
+    secs = [t.split() for t in txt.split(";")]
+    h = secs[0]
+    st: Dict[str, Any] = {"cur": int(h[0]), "bufn": int(h[1])}
+    if kind == "white":
+        st.update(fs=C.h2f(h[2]), rms=C.h2f(h[3]), z=np.empty(0))
+        return st
+    if kind == "red":
+        st.update(fs=C.h2f(h[2]), fmin=C.h2f(h[3]), scaling=C.h2f(h[4]), rms=C.h2f(h[5]),
+                  a=np.array([C.h2f(t) for t in secs[1]]), b=np.array([C.h2f(t) for t in secs[2]]),
+                  z=np.array([C.h2f(t) for t in secs[3]]))
+        return st
+    st.update(fs=C.h2f(h[2]), alpha=C.h2f(h[3]), fmin=C.h2f(h[4]), fmax=C.h2f(h[5]), scaling=C.h2f(h[6]), rms=C.h2f(h[7]), nspec=int(h[8]))
+    for name, sec in (("a", secs[1]), ("b", secs[2]), ("zs", secs[3])):
+        n, m = int(sec[0]), int(sec[1])
+        st[name] = np.array([C.h2f(t) for t in sec[2:]], dtype=np.float64).reshape(n, m)
+    st["z"] = st["zs"][:, 0] if st["zs"].shape[1] >= 1 else np.empty(0)
+    return st
+
+
+def genobj_real_state(g, kind: str) -> Dict[str, Any]:
+    if kind == "white":
+        return {"rng": g._rng, "bufn": int(np.asarray(g._buffer).size), "fs": float(g._fs), "rms": float(g._rms), "z": np.empty(0)}
+    w = g._whitenoise
+    st = {"rng": w._rng, "bufn": int(np.asarray(g._buffer).size), "fs": float(g._fs), "rms": float(w._rms), "scaling": float(g._scaling),
+          "fmin": float(g._fmin)}
+    if kind == "red":
+        st.update(a=np.asarray(g._a, dtype=np.float64).ravel(), b=np.asarray(g._b, dtype=np.float64).ravel(),
+                  z=np.asarray(g._zi, dtype=np.float64).ravel())
+    else:
+        st.update(a=np.asarray(g._a_coeffs, dtype=np.float64), b=np.asarray(g._b_coeffs, dtype=np.float64),
+                  zs=np.asarray(g._zi_states, dtype=np.float64), z=np.asarray(g._zi_states, dtype=np.float64)[:, 0],
+                  alpha=float(g._alpha), fmax=float(g._fmax), nspec=int(g._num_spectra))
+    return st
+
+
+def close(a, b, rel: float, absx: float = 0.0) -> bool:
+    a, b = np.asarray(a, dtype=np.float64), np.asarray(b, dtype=np.float64)
+    return a.shape == b.shape and bool(np.all(np.abs(a - b) <= rel * np.maximum(np.abs(a), np.abs(b)) + absx))
+
+
+def genobj_case(P: C.Part, drv, spec: Dict[str, Any], ops: List[Tuple[str, int]], heavy: bool) -> None:
+    """one differential case: the GENERATED class (Gen/NoiseGens.lean, translated from noise.py this run) executed in Float by the
+    driver over the stream xi = the standard-normal draws of a same-seed np.random.default_rng(seed), vs the real object"""
+    kind = spec["kind"]
+    g, cap = genobj_build(spec)
+    payload = {"check": "chunk", "spec": spec, "ns": [int(n) for o, n in ops if o == "s"], "follow": 7}
+    case = {"op": f"genobj {kind}", "spec": spec, "requests": [[o, int(n)] for o, n in ops], "oracle_payload": payload}
+    if kind in ("alpha", "pink") and set(cap) != {"filter_f_min_vals", "filter_f_max_vals"}:
+        P.cases += 1
+        P.disagreements.append(dict(case, what="alpha_noise.__init__ no longer has the locals filter_f_min_vals / filter_f_max_vals "
+                                               "(the filter-design inputs of the generated __init__)"))
+        return
+    g0 = copy.deepcopy(g)
+    r0 = genobj_real_state(g0, kind)
+    m = extract(g0, kind)
+    n_series = sum(n for o, n in ops if o == "s")
+    n_refill = sum(n // 4096 + 2 for o, n in ops if o == "g")
+    fmin_eff = float(g.fmin) if kind != "white" else 1.0
+    settle = int(np.ceil(2.0 * spec["kw"]["f_sample"] / fmin_eff)) + 2 if spec["kw"].get("init_filter") else 0
+    est = 4 + settle + n_series + 4096 * n_refill
+    xi_long = np.random.default_rng(int(spec["seed"])).standard_normal(3 * est + 3 * 4096 + 64)
+    real = genobj_real(g, ops)
+    r1 = genobj_real_state(g, kind)
+
+    def locate(rng_real) -> int:
+        """position of a real Generator on its seed's stream of standard normals (-1: beyond the prepared stretch)"""
+        nxt = copy.deepcopy(rng_real).standard_normal(3)
+        for j in np.flatnonzero(xi_long[:-3] == nxt[0]):
+            if np.array_equal(xi_long[j:j + 3], nxt):
+                return int(j)
+        return -1
+    pos0, pos1 = locate(r0["rng"]), locate(r1["rng"])
+    # the generated code gets exactly the stretch the real object consumed (+ a margin): reading beyond it yields NaN
+    xi = xi_long[:(pos1 if pos1 >= 0 else est) + 8]
+    reply = drv.ask(genobj_line(spec, g0, cap, xi, ops))
+    P.cases += 1
+    P.hit(f"genobj:{kind}")
+    P.hit("genobj:init_filter" if spec["kw"].get("init_filter") else "genobj:no_init")
+    P.hit("genobj:heavy(4095-4097 blocks, get_sample refills)" if heavy else "genobj:light")
+    for o, n in ops:
+        P.hit(f"genobj:{'get_series' if o == 's' else 'get_sample_run'}:{n if n in GENOBJ_SIZES else ('>4096' if n > 4096 else 'other')}")
+    if reply.startswith("ERR"):
+        P.disagreements.append(dict(case, what="driver error " + reply[:200]))
+        return
+    parts = reply.split("|")
+    out = np.array([C.h2f(t) for t in parts[0].split()], dtype=np.float64)
+    s0, s1 = genobj_state(parts[1], kind), genobj_state(parts[2], kind)
+    bad: List[str] = []
+    # --- the object __init__ leaves behind
+    def params(st, rs, tag):
+        for k in ("fs", "rms", "scaling", "fmin", "alpha", "fmax"):
+            if k in rs and not close(st[k], rs[k], 8 * U):
+                bad.append(f"{tag}: {k} generated {st[k]!r} real {rs[k]!r}")
+        if "nspec" in rs and st["nspec"] != rs["nspec"]:
+            bad.append(f"{tag}: _num_spectra generated {st['nspec']} real {rs['nspec']}")
+        for k in ("a", "b"):
+            if k in rs and not close(st[k], rs[k], 8 * U):
+                bad.append(f"{tag}: coefficient array {k} generated {np.asarray(st[k]).ravel().tolist()[:6]} real {np.asarray(rs[k]).ravel().tolist()[:6]}")
+        if "zs" in rs and st["zs"].shape != rs["zs"].shape:
+            bad.append(f"{tag}: _zi_states shape generated {st['zs'].shape} real {rs['zs'].shape}")
+    params(s0, r0, "after __init__")
+    params(s1, r1, "after the requests")
+
+    if s0["cur"] != pos0:
+        bad.append(f"after __init__: generated cursor {s0['cur']}, the real Generator is at draw {pos0} of the seed's stream")
+    if s1["cur"] != pos1:
+        bad.append(f"after the requests: generated cursor {s1['cur']}, the real Generator is at draw {pos1} of the seed's stream")
+    if s0["bufn"] != r0["bufn"] or s1["bufn"] != r1["bufn"]:
+        bad.append(f"get_sample buffer length: generated {s0['bufn']} -> {s1['bufn']}, real {r0['bufn']} -> {r1['bufn']}")
+    # --- tolerance: the running rounding bound of the reference cascade over the stream the requests consumed (max over the stream:
+    #     with get_sample interleaved a returned sample is not at its own stream position), plus the effect of a <= 4 ulp difference
+    #     between libm and NumPy exp/pow in the coefficients computed by __init__
+    consumed = max(0, s1["cur"] - s0["cur"])
+    if kind == "white":
+        tol_out, tol_z = 0.0, 0.0
+    else:
+        _, tol, _, tz = stream_reference(m, xi[s0["cur"]:s0["cur"] + consumed])
+        pole = max([abs(sc[2]) for sc in m["secs"]] + [0.0])
+        amp = 1.0 / max(1.0 - pole, U)
+        scale_y = float(np.max(np.abs(real))) if real.size else 0.0
+        tol_out = 2.0 * (float(np.max(tol)) if tol.size else 0.0) + 16 * U * amp * scale_y + TINY
+        zmax = float(max(np.max(np.abs(r1["z"])) if r1["z"].size else 0.0, np.max(np.abs(r0["z"])) if r0["z"].size else 0.0))
+        tol_z = 2.0 * (float(np.max(tz)) if tz.size else 0.0) + 16 * U * amp * zmax + TINY
+        if not close(s0["z"], r0["z"], 0.0, 16 * U * amp * (float(np.max(np.abs(r0["z"]))) if r0["z"].size else 0.0) + TINY):
+            bad.append(f"after __init__: filter state generated {s0['z'].tolist()[:4]} real {r0['z'].tolist()[:4]}")
+    if out.shape != real.shape:
+        bad.append(f"the requests returned {out.size} samples in the generated code, {real.size} in the real object")
+    elif not close(out, real, 0.0, tol_out):
+        bad.append(f"returned samples: {first_diff(out, real)} (tolerance {tol_out:.3g})")
+    if s1["z"].shape != r1["z"].shape or not close(s1["z"], r1["z"], 0.0, tol_z):
+        bad.append(f"after the requests: filter state generated {s1['z'].tolist()[:4]} real {r1['z'].tolist()[:4]} (tolerance {tol_z:.3g})")
+    if not bad and same(out, real) and same(s1["z"], r1["z"]):
+        P.hit("genobj:bit_identical")
+    if bad:
+        P.disagreements.append(dict(case, what="; ".join(bad[:4]), generated_state=[s0["cur"], s1["cur"], s1["bufn"]]))
+    if real.size >= 2 and len(ops) >= 2 and float(np.ptp(real)) > 0.0:
+        P.nontrivial.add(("genobj", kind, bool(spec["kw"].get("init_filter")), tuple(ops)))
+    if len([1 for smp in P.samples if isinstance(smp, dict) and str(smp.get("op", "")).startswith("genobj")]) < 2:
+        P.sample({"op": f"genobj {kind}", "spec": spec, "requests": [[o, int(n)] for o, n in ops], "first_generated": out[:3].tolist(),
+                  "first_real": real[:3].tolist(), "cursor": [s0["cur"], s1["cur"]], "buffer": s1["bufn"]}, cap=10)
+
+
+def genobj_cost(g_kind: str, nspec: int, ops: List[Tuple[str, int]], settle: int) -> float:
+    blocks = [n for o, n in ops if o == "s"] + [4096] * sum(n // 4096 + 1 for o, n in ops if o == "g") + [settle]
+    per = float(sum(b * b for b in blocks))
+    return per * (nspec if g_kind in ("alpha", "pink") else 0.0) + 20.0 * sum(blocks)
+
+
+def genobj_run(P: C.Part, ctx, drv, rng: np.random.Generator) -> None:
+    n_cases = ctx.scale(36, 400)
+    budget = 16.0 if not ctx.thorough else 240.0
+    spent, t0 = 0.0, __import__("time").time()
+    for i in range(n_cases):
+        if ctx.time_left() < 20 or (__import__("time").time() - t0) > budget:
+            P.notes.append(f"genobj: time budget reached after {i} of {n_cases} cases")
+            break
+        kind = KINDS[i % 4]
+        init = (i // 4) % 2 == 1
+        heavy = (i // 8) % 2 == 0 if kind in ("alpha", "pink") else (i % 3 != 2)
+        spec = genobj_spec(rng, kind, init and kind != "white", heavy)
+        ops = genobj_ops(rng, heavy)
+        if kind in ("alpha", "pink"):
+            nspec = int(np.ceil(4.5 * np.log10(spec["kw"]["f_max"] / spec["kw"]["f_min"])))
+            settle = int(2.0 * spec["kw"]["f_sample"] / spec["kw"]["f_min"]) + 1 if init else 0
+            if spent + genobj_cost(kind, nspec, ops, settle) > budget * GENOBJ_COST_PER_S * 0.8:
+                # the cost budget of the generated cascade (sections * n^2 per request) is used up: small requests only from here on
+                ops = [("s", min(n, 64)) if o == "s" else ("s", 3) for o, n in ops]
+            spent += genobj_cost(kind, nspec, ops, settle)
+        genobj_case(P, drv, spec, ops, heavy)
+    P.notes.append(f"genobj: generated classes vs real objects, {P.histogram.get('genobj:white', 0) + P.histogram.get('genobj:red', 0) + P.histogram.get('genobj:alpha', 0) + P.histogram.get('genobj:pink', 0)} "
+                   f"cases in {__import__('time').time() - t0:.1f}s")
+
+
 # ------------------------------------------------------------------------------------------------ correspondence (model vs real)
 def secs_line(secs) -> str:
     return str(len(secs)) + "".join(" " + " ".join(C.f2h(v) for v in s) for s in secs)
@@ -705,4 +1007,12 @@ def correspondence(ctx) -> C.Part:
         if i < 4:
             P.sample({"op": f"gen {kind}", "spec": spec, "requests": ns, "first_impl": got[:3].tolist(), "first_model": my[:3].tolist(),
                       "impl_state": zf.tolist()[:3], "model_state": mz.tolist()[:3]})
+
+    # (c) the GENERATED generator classes (Gen/NoiseGens.lean, translated from noise.py this run) executed in Float vs the real objects:
+    #     request sequences interleaving get_series (sizes incl. 0, 1, 2, 4095..4097) with get_sample runs; own random stream
+    sub = np.random.default_rng(int(rng.integers(0, 2 ** 62)))
+    try:
+        genobj_run(P, ctx, drv, sub)
+    except RuntimeError as ex:           # the driver died / cannot serve `genobj`
+        P.disagreements.append({"op": "genobj", "what": f"generated classes could not be executed: {ex!r}"[:300]})
     return P
